@@ -497,6 +497,11 @@ fn gen_bridge(mut input: ItemMod) -> ItemMod {
         }
 
         Item::Impl(i) => {
+            // diplomat-tool reads (and inherits) attributes on impl blocks, rustc must not see them
+            let info = AttributeInfo::extract(&mut i.attrs);
+            if info.opaque {
+                panic!("#[diplomat::opaque] not allowed on impl blocks")
+            }
             for item in &mut i.items {
                 if let syn::ImplItem::Fn(ref mut m) = *item {
                     let info = AttributeInfo::extract(&mut m.attrs);
